@@ -85,16 +85,7 @@ int simk_sigprocmask(int, const sigset_t *, sigset_t *old) { if (old) sigemptyse
 int simk_pthread_sigmask(int, const sigset_t *, sigset_t *old) { if (old) sigemptyset(old); return 0; }
 
 // ---------------------------------------------------------------- threads
-int simk_pthread_detach(pthread_t th) {
-  yield_point();
-  int id = (int)(uintptr_t)th - 1;
-  Task *t = task(id);
-  if (!t || !t->is_thread) return ESRCH;
-  if (t->detached || t->joined) return EINVAL;
-  t->detached = true;
-  ev("thread_detach", id);
-  return 0;
-}
+int simk_pthread_detach(pthread_t th) { return sim::shim::detach_native(th); }
 int simk_pthread_once(pthread_once_t *once, void (*fn)(void)) {
   // control word: 0 = not run, 1 = running, 2 = done (the library object owns the word; the simulator only interprets it)
   volatile int *w = (volatile int *)once;
